@@ -220,17 +220,19 @@ class Parser:
         stream.next_token()
 
         # 1 or 1: or : or ?
+        second_colon = False
         if _maybe_index(stream.current):
             stop = int(stream.current.value)
             stream.next_token()
             if stream.current.type_ == TokenType.COLON:
+                second_colon = True
                 stream.next_token()
         elif stream.current.type_ == TokenType.COLON:
-            stream.expect(TokenType.COLON)
+            second_colon = True
             stream.next_token()
 
-        # 1 or ?
-        if _maybe_index(stream.current):
+        # 1 or ? A step must be introduced by the second colon.
+        if second_colon and _maybe_index(stream.current):
             step = int(stream.current.value)
             stream.next_token()
 
